@@ -460,6 +460,10 @@ func main() {
 		cmdReqID(os.Args[2], os.Args[3])
 		return
 	}
+	if len(os.Args) == 4 && os.Args[1] == "table" {
+		cmdTable(os.Args[2], os.Args[3])
+		return
+	}
 	if len(os.Args) < 5 {
 		fmt.Fprintln(os.Stderr, "usage: c09 run <random N | script FILE> <out>  |  c09 worker <mode> <arg> <from> <out>")
 		os.Exit(3)
